@@ -4,6 +4,7 @@ import os
 from collections import OrderedDict
 from itertools import chain
 
+from parglare import _verif
 from parglare.closure import LR_1, closure
 from parglare.exceptions import GrammarError, RRConflict, SRConflict
 from parglare.grammar import (
@@ -228,6 +229,8 @@ def create_table(
                 # We've found a new state. Register it for later processing.
                 state_queue.append(target_state)
                 state_id += 1
+                if _verif.ON:
+                    _verif.state_budget(grammar, state_id, _old_start_production_rhs)
             else:
                 # A state with this kernel items already exists.
                 # LALR: Try to merge states, i.e. update items follow sets.
@@ -237,6 +240,8 @@ def create_table(
                     target_state = maybe_new_state
                     state_queue.append(target_state)
                     state_id += 1
+                    if _verif.ON:
+                        _verif.state_budget(grammar, state_id, _old_start_production_rhs)
 
             # Create entries in GOTO and ACTION tables
             if isinstance(symbol, NonTerminal):
